@@ -8,6 +8,7 @@ import vlib
 from vlib import cz, czl, fl, fll, fc, fcl
 from props import _pipelines as P
 from props import _c08_objects as O
+from props._loopir import loopir_tie, TRUSTED_LINE
 
 LEVEL_TEXT = ("Theorems in Coq (abstract field with conjugation and a twiddle character, every NFFT, every coefficient vector): "
               "the model of arma2psd equals (rho/T)|B(w^k)|^2/|A(w^k)|^2 on the grid, is linear in rho and inverse in T, with lengths, raise "
@@ -15,9 +16,15 @@ LEVEL_TEXT = ("Theorems in Coq (abstract field with conjugation and a twiddle ch
               "use of sampling/scale_by_freq and psd.py's scale/df/setters/Range are translated from the snapshot on every run into a Gallina "
               "table; over that table Coq re-proves scale_once (factor 2*pi/df applied exactly once, df = sampling/NFFT), the three "
               "sampling_value clauses and sampling_axis.  Both models are tied to the code by in-Coq correspondence runs (exact Gaussian "
-              "rationals at NFFT 1,2,4; binary64 otherwise; the generated pipeline interpreter against real objects) and by a ratio search.")
-TRUSTED = ["Coq 8.16.1 kernel + vm_compute (no native_compute)",
-           "hand-written model coq/Model/Arma2psd.v, tied to arma.py by the correspondence runs only; numpy.fft.fft modelled as the DFT sum",
+              "rationals at NFFT 1,2,4; binary64 otherwise; the generated pipeline interpreter against real objects) and by a ratio search.  "
+              "Additionally arma2psd itself is regenerated from the Python source into a loop-IR program on every run (fail-closed ast translator; numpy.fft.fft = the DFT "
+              "specification over a hidden twiddle parameter) and the Coq interpreter's run of that program EQUALS the hand model for all inputs by theorem "
+              "(both sides values, norm=True included), with exact evaluation on sampled inputs as the fallback when the program text changes.")
+TRUSTED = [TRUSTED_LINE, "Coq 8.16.1 kernel + vm_compute (no native_compute)",
+           "hand-written model coq/Model/Arma2psd.v; numpy.fft.fft modelled as the DFT sum; tied to arma.py (a) by the float-tolerance correspondence runs and "
+           "(b) through the loop-IR: arma2psd is regenerated from the source into an IR program on every run (fft = the DFT specification over a hidden twiddle "
+           "parameter) and `run program = Model.Arma2psd.arma2psd` is a THEOREM for all inputs (Proofs/LoopIRArma2psd.v), claimed while the regenerated text is the proved one, "
+           "plus exact evaluation at QcC (tw1/tw2/tw4) and binary64 runs against model (bit for bit) and implementation",
            "fail-closed AST translator tools/props/_pipelines.py and the interpreter coq/Model/PipelineLib.v it targets, validated on every run "
            "against real objects of all thirteen classes (stored PSD, df, frequencies)",
            "that speriodogram, CORRELOGRAMPSD, minvar, eigen, pmtm depend on sampling/scale_by_freq only as read off their source syntactically "
@@ -285,6 +292,9 @@ def run(ctx):
     # the estimate an object holds does not depend on the history that gave it its data and settings (every route of _estimators.via)
     from props import _estimators as E_
     E_.class_route_stream(ctx, E_.CLASSES, 'routes')
+    # arma2psd regenerated from the source into the loop-IR (fft = the DFT specification over a hidden twiddle parameter) vs the hand model:
+    # exact at QcC with tw1 / tw2 / tw4, and at binary64 against both the hand model (bit for bit) and the implementation
+    loopir_tie(ctx, ['arma2psd'])
 
     # ---------------- translator + theorems over the generated table
     src = os.path.join(vlib.SNAP, 'src', 'spectrum')
